@@ -1,6 +1,8 @@
 package main
 
 import (
+	"time"
+	"net"
 	"bytes"
 	"fmt"
 	"io"
@@ -13,6 +15,37 @@ import (
 type sinkAll struct{ b []byte }
 
 func (s *sinkAll) Write(p []byte) (int, error) { s.b = append(s.b, p...); return len(p), nil }
+
+// sinkLim takes `left` more bytes, then fails (reporting how many bytes of the piece it took).
+type sinkLim struct {
+	b    []byte
+	left int
+}
+
+func (s *sinkLim) Write(p []byte) (int, error) {
+	n := len(p)
+	if n > s.left {
+		n = s.left
+	}
+	s.b = append(s.b, p[:n]...)
+	s.left -= n
+	if n < len(p) {
+		return n, io.ErrShortWrite
+	}
+	return n, nil
+}
+
+// pieceConn is a net.Conn that reads from a PieceReader.
+type pieceConn struct{ r *PieceReader }
+
+func (p *pieceConn) Read(b []byte) (int, error)       { return p.r.Read(b) }
+func (p *pieceConn) Write(b []byte) (int, error)      { return len(b), nil }
+func (p *pieceConn) Close() error                     { return nil }
+func (p *pieceConn) LocalAddr() net.Addr              { return nil }
+func (p *pieceConn) RemoteAddr() net.Addr             { return nil }
+func (p *pieceConn) SetDeadline(time.Time) error      { return nil }
+func (p *pieceConn) SetReadDeadline(time.Time) error  { return nil }
+func (p *pieceConn) SetWriteDeadline(time.Time) error { return nil }
 
 func hashBytes(b []byte) uint32 {
 	h := uint32(7)
@@ -257,7 +290,15 @@ func runChunkSeq(c *Ctx, r *Rng, limit int, nops int) {
 			}
 			tok = "rf:" + hxChunks(pieces)
 			pr := &PieceReader{P: append([][]byte(nil), pieces...)}
-			t, err := ch.ReadFrom(pr)
+			var t int64
+			var err error
+			if r.Chance(35) {
+				// the net.Conn variant of the same loop (no time-outs occur on this connection)
+				t, err = ch.ReadDeadline(&pieceConn{pr}, time.Duration(r.Intn(2))*time.Second)
+				c.Count("op:rf-deadline")
+			} else {
+				t, err = ch.ReadFrom(pr)
+			}
 			out = fmt.Sprintf("rf=%d,rest=%d", t, pr.Remaining())
 			if err != nil {
 				out += "," + errClass(err)
@@ -269,6 +310,24 @@ func runChunkSeq(c *Ctx, r *Rng, limit int, nops int) {
 				if int(t)+pr.Remaining() != len(b) {
 					fail("readfrom", "readfrom-lost-bytes", fmt.Sprintf("ReadFrom reported %d, reader has %d left of %d", t, pr.Remaining(), len(b)))
 				}
+			}
+		case x == 98 && r.Bool(): // WriteTo into a writer that takes only part of the data and then fails
+			k := r.Intn(len(ref) + 3)
+			if r.Chance(30) {
+				k = r.Intn(4)
+			}
+			tok = fmt.Sprintf("wl:%d", k)
+			s := sinkLim{left: k}
+			n, err := ch.WriteTo(&s)
+			out = fmt.Sprintf("wl=%d,%s", n, hx(s.b))
+			if err != nil {
+				out += ",err"
+			}
+			if int(n) != len(s.b) || !bytes.HasPrefix(ref, s.b) {
+				fail("fifo", "writeto-count", fmt.Sprintf("WriteTo reported %d bytes, the writer took %d (%s), queue held %s", n, len(s.b), hx(s.b), hx(ref)))
+				ref = append([]byte(nil), ch.Payload()...)
+			} else {
+				ref = ref[len(s.b):]
 			}
 		default: // WriteTo
 			tok = "wt"
